@@ -467,4 +467,65 @@ def str_tool(ctx):
                           '' if ok else 'the prefix used to number colliding names may contain %s: it is cut from the joined name '
                           '(basename + separators + extension), so the renamed entry can carry a second separator and is refused by add_file'
                           % sorted(bad)))
+            if level == 1 and isinstance(pv, strdom.S):
+                # length of the renumbered base name: prefix + the digits of the largest number that can be formatted
+                mx = _max_collision_number(ctx, fi)
+                key2 = '%s|level 1|is_dir %s|renumbered length' % (fi.qual, is_dir)
+                if mx is None:
+                    obs.append(Ob('SA-STR.tool', key2, False, ctx.loc(fi, fi.node),
+                                  'the collision counter has no recognisable upper bound: the renumbered name grows without limit'))
+                else:
+                    digits = max(3, len(str(mx)))
+                    total = pv.hi + digits
+                    ok2 = total <= 8
+                    obs.append(Ob('SA-STR.tool', key2, ok2, ctx.loc(fi, fi.node),
+                                  '' if ok2 else 'a colliding name is renumbered as prefix (up to %s characters) + %%.03d of a counter that can reach %d (%d digits): '
+                                  '%s characters, the level-1 limit for the base name is 8 - the library refuses the name the tool derived'
+                                  % (pv.hi, mx, digits, total)))
     return obs
+
+
+def _max_collision_number(ctx, fi):
+    """largest value of the collision counter that can reach the `%.03d` formatting in build_iso_path"""
+    fmt = None
+    for n in ctx.own_nodes(fi):
+        if isinstance(n, ast.BinOp) and isinstance(n.op, ast.Mod) and isinstance(n.left, ast.Constant) and isinstance(n.left.value, str) and '%.03d' in n.left.value:
+            fmt = n
+            break
+    if fmt is None:
+        raise AnalysisError('anchor-vanished: %.03d formatting in build_iso_path')
+    counter = None
+    if isinstance(fmt.right, ast.Tuple):
+        for e in fmt.right.elts:
+            if isinstance(e, ast.Name) and e.id != 'prefix' and e.id != 'ext':
+                counter = e.id
+    if counter is None:
+        return None
+    par = ctx.parents(fi)
+    loop = fmt
+    while loop is not None and not isinstance(loop, (ast.While, ast.For)):
+        loop = par.get(id(loop))
+    if loop is None:
+        return None
+    bounds = []
+    if isinstance(loop, ast.While) and isinstance(loop.test, ast.Compare) and len(loop.test.ops) == 1 and \
+            isinstance(loop.test.left, ast.Name) and loop.test.left.id == counter and isinstance(loop.test.comparators[0], ast.Constant):
+        k = loop.test.comparators[0].value
+        if isinstance(loop.test.ops[0], ast.LtE):
+            bounds.append(k)
+        elif isinstance(loop.test.ops[0], ast.Lt):
+            bounds.append(k - 1)
+    if isinstance(loop, ast.For) and isinstance(loop.iter, ast.Call) and norm(loop.iter.func) == 'range' and loop.iter.args and \
+            isinstance(loop.iter.args[-1 if len(loop.iter.args) < 3 else 1], ast.Constant):
+        bounds.append(loop.iter.args[-1 if len(loop.iter.args) < 3 else 1].value - 1)
+    for n in ast.walk(loop):
+        if isinstance(n, ast.If) and isinstance(n.test, ast.Compare) and len(n.test.ops) == 1 and isinstance(n.test.left, ast.Name) and \
+                n.test.left.id == counter and isinstance(n.test.comparators[0], ast.Constant) and n.body and \
+                isinstance(n.body[-1], (ast.Return, ast.Break, ast.Raise)):
+            k = n.test.comparators[0].value
+            op = n.test.ops[0]
+            if isinstance(op, (ast.Eq, ast.GtE)):
+                bounds.append(k - 1)
+            elif isinstance(op, ast.Gt):
+                bounds.append(k)
+    return min(bounds) if bounds else None
